@@ -748,6 +748,11 @@ class Watcher(object):
             while process.stopping:
                 yield tornado_sleep(0.1)
             raise gen.Return(False)
+        if process.status in (DEAD_OR_ZOMBIE, UNEXISTING):
+            # it has already exited by itself: nothing to kill, collect it
+            # properly so that its "reap" event is published
+            self.reap_process(process.pid)
+            raise gen.Return(False)
         try:
             logger.debug("%s: kill process %s", self.name, process.pid)
             if self.stop_children:
